@@ -249,7 +249,7 @@ func body(s *simrt.Sim, tier string) {
 		if l := s.Live("fireEvent"); len(l) > 0 {
 			s.Fail("goroutines-alive-after-close", fmt.Sprintf("Close returned while signal-sender goroutines were still alive: %v", l))
 		}
-		closeReturned.Store(s.Stamp())
+		closeReturned.CompareAndSwap(0, s.Stamp()) // the first Close to return counts
 		s.Yield("close.ret")
 	}
 	if racing {
@@ -265,6 +265,13 @@ func body(s *simrt.Sim, tier string) {
 			closer()
 		})
 		names = append(names, "terminator")
+		if s.Choose(3, "terminator2") == 0 {
+			s.Go("terminator2", func() {
+				s.Sleep(palette[s.Choose(len(palette), "termAt3")])
+				closer()
+			})
+			names = append(names, "terminator2")
+		}
 	}
 	if !s.Join(time.Hour, names...) {
 		s.Fail("hang", "Add / Close did not return\n"+s.Dump())
@@ -377,7 +384,7 @@ func body(s *simrt.Sim, tier string) {
 		s.Go("closer", closer)
 		ok := true
 		if s.Choose(3, "close2") == 0 {
-			s.Go("closer2", func() { rl.Close() })
+			s.Go("closer2", closer) // a second, overlapping Close: it too returns only when the helpers are gone
 			ok = s.Join(time.Hour, "closer2")
 		}
 		if !s.Join(time.Hour, "closer") || !ok {
